@@ -44,6 +44,7 @@ MANIFEST = {
 }
 
 U1 = "00000000-0000-4000-8000-0000000000c4"
+REG_TOPLEVEL = "extension-definition--7c3b9e4f-5d6f-4a81-8cbd-2e3f4a5b6c7d"
 
 
 # ------------------------------------------------------------------ walking an object along the frozen tables
@@ -227,6 +228,21 @@ def injections(gen, cid, o):
                 mut(lambda x: add(x, "x-registered-ext", {"rank": 1}), "registered custom extension x-registered-ext at %s" % ps, False)
                 mut(lambda x: add(x, "x-registered-ext", {"rank": 1, "x_more": 2}),
                     "custom property inside registered custom extension at %s" % ps, True)
+            if ex["ver"] == "2.1" and r.random() < 0.6:
+                # a toplevel-property-extension REGISTERED in the worker: its declared property is ordinary content,
+                # anything beyond it -- or the property without the extension -- is custom
+                def tlreg(x, extra_name=None, with_ext=True):
+                    if with_ext:
+                        add(x, REG_TOPLEVEL, {"extension_type": "toplevel-property-extension"})
+                    at(x, path)["t_rank"] = 5
+                    if extra_name:
+                        at(x, path)[extra_name] = 1
+                nc = {"nocorr": True}
+                mut(lambda x: tlreg(x), "registered toplevel-property-extension with its declared property at %s" % ps, False, nc)
+                mut(lambda x: tlreg(x, "zzz_undeclared"),
+                    "undeclared property next to a registered toplevel-property-extension at %s" % ps, True, nc)
+                mut(lambda x: tlreg(x, None, False),
+                    "property of a registered toplevel-property-extension without the extension at %s" % ps, True, nc)
             if ex["ver"] == "2.1" and r.random() < 0.3 and kind == "extensions-absent":
                 def tl(x):
                     add(x, "extension-definition--" + U1, {"extension_type": "toplevel-property-extension"})
@@ -307,7 +323,7 @@ def correspondence(run, cases, variants):
     """flag of the allow-mode (and strict) run + strict reparse outcome: model against the library"""
     ccases = []
     for c in cases:
-        if not isinstance(c["data"].get("type", ""), str) or c.get("prebuilt") or c["route"] not in ("parse", "construct"):
+        if not isinstance(c["data"].get("type", ""), str) or c.get("prebuilt") or c.get("nocorr") or c["route"] not in ("parse", "construct"):
             continue
         for allow in ((True, False) if c.get("custom") else (True,)):
             ccases.append({"op": "parse" if c["route"] == "parse" else "construct", "cid": c["cid"], "data": c["data"],
@@ -523,7 +539,8 @@ def check(run):
         "custom_properties key, hash algorithm, reference, extension, bundle / observed-data member, every nested object also "
         "given as a library object built beforehand under allow_custom=True with and without custom content, bundle members "
         "of unregistered types declared by an extension definition, specification-defined properties inside the "
-        "constructor's custom_properties= argument), six sampled sites; unregistered top-level types and bundle members with "
+        "constructor's custom_properties= argument, a toplevel-property-extension registered in the worker with declared / "
+        "undeclared / orphaned properties), six sampled sites; unregistered top-level types and bundle members with "
         "extensions of every shape; observable types registered only after they were looked up (parse_observable, parse, "
         "observed-data member) against a type registered up front; observables also through parse_observable; six sampled sites "
         "for the others; each case under allow_custom False and True plus the strict reparse of the allow-mode "
